@@ -11,7 +11,7 @@ RULE = ('seeded scenarios biased to rules that match newlines only through class
         'distinct = event-log hash, non-trivial = >= 2 tokens and >= 1 newline consumed')
 TIERS = {
     'quick': {'scenarios': 48, 'plans': 100, 'wall_cap': 600},
-    'thorough': {'scenarios': 1200, 'plans': 250, 'wall_cap': 3300},
+    'thorough': {'scenarios': 5000, 'plans': 250, 'wall_cap': 3300},
 }
 COMPONENTS = sb.COMPONENTS
 ASSUMPTIONS = ['the oracle is self-relative: it uses no tokeniser model, so tokenisation bugs cannot trigger it']
